@@ -7,7 +7,6 @@ import (
 	"math/rand"
 	"net"
 	"strconv"
-	"strings"
 	"sync"
 	"sync/atomic"
 	"time"
@@ -130,60 +129,6 @@ func init() {
 			for _, pc := range peers {
 				pc.Close()
 			}
-		}
-		return "ok"
-	})
-	// race service <base port> <millis>: a REAL service with two listeners, started from a YAML configuration through
-	// startProxy (the wiring of main.go), each listener with its own backend; the two backends answer INVITEs (200 with
-	// both tags, from their configured addresses) at full speed, so that both listeners' loops do their dialog
-	// bookkeeping at the same time. Built with -race.
-	vReg("race service", func(a []string) string {
-		base, _ := strconv.Atoi(a[0])
-		ms, _ := strconv.Atoi(a[1])
-		y := "proxies:\n- name: svc.test\n  listens:\n"
-		for i := 0; i < 2; i++ {
-			y += fmt.Sprintf("  - address: 127.0.0.1\n    udp-port: %d\n    backends:\n    - udp://127.0.1.%d:%d\n", base+i, i+1, base+10+i)
-		}
-		cfg, err := loadConfigFromReader(strings.NewReader(y))
-		if err != nil {
-			return "config-error"
-		}
-		for _, proxy := range cfg.Proxies {
-			if err := startProxy(proxy, createPreConfigRoute(proxy), createPreConfigHostResolver(cfg.Hosts, proxy)); err != nil {
-				return "not-run"
-			}
-		}
-		time.Sleep(30 * time.Millisecond)
-		var wg sync.WaitGroup
-		var stop int32
-		var sent int64
-		for i := 0; i < 2; i++ {
-			be, err := net.ListenUDP("udp", &net.UDPAddr{IP: net.IPv4(127, 0, 1, byte(i+1)), Port: base + 10 + i})
-			if err != nil {
-				return "not-run"
-			}
-			lst := &net.UDPAddr{IP: net.IPv4(127, 0, 0, 1), Port: base + i}
-			wg.Add(1)
-			go func(i int, be *net.UDPConn) {
-				defer wg.Done()
-				defer be.Close()
-				for k := 0; atomic.LoadInt32(&stop) == 0; k++ {
-					r := fmt.Sprintf("SIP/2.0 200 OK\r\nVia: SIP/2.0/UDP 127.0.0.1:%d;branch=z9hG4bKown%d\r\nVia: SIP/2.0/UDP 127.0.2.9:%d;branch=z9hG4bKua%d\r\nFrom: <sip:a%d@ua.test>;tag=f%d\r\nTo: <sip:svc.test>;tag=t%d\r\nCall-ID: rs-%d-%d\r\nCSeq: 1 INVITE\r\nContent-Length: 0\r\n\r\n",
-						base+i, k, base+20, k, k, k, k, i, k)
-					be.WriteToUDP([]byte(r), lst)
-					atomic.AddInt64(&sent, 1)
-					if k%64 == 63 {
-						time.Sleep(200 * time.Microsecond)
-					}
-				}
-			}(i, be)
-		}
-		time.Sleep(time.Duration(ms) * time.Millisecond)
-		atomic.StoreInt32(&stop, 1)
-		wg.Wait()
-		time.Sleep(50 * time.Millisecond)
-		if atomic.LoadInt64(&sent) < 100 {
-			return "too-little-load"
 		}
 		return "ok"
 	})
